@@ -79,6 +79,10 @@ def chain_model(draw, max_depth):
         if len(tops) > 1 and draw(st.booleans()):
             e = ["bin", "+", e, ["var", draw(st.sampled_from(tops))]]
         assigns.append({"name": X.deriv_name(s), "expr": e, "comps": [""]})
+    # monitor-only intermediates (used by nothing): they change the tie-breaks of the topological sort
+    pool = [n for n in G.SAFE_POOL if n not in names]
+    for n in draw(st.lists(st.sampled_from(pool), min_size=0, max_size=3, unique=True)):
+        assigns.append({"name": n, "expr": ["bin", "*", ["var", draw(st.sampled_from(base))], ["var", draw(st.sampled_from(sn + cn))]], "comps": [""]})
     states = [{"name": n, "value": ["num", str(i + 1) + ".5"], "comps": [""]} for i, n in enumerate(sn)]
     params = [{"name": n, "value": ["num", "0." + str(i + 3)], "comps": [""]} for i, n in enumerate(pn)]
     return {"states": states, "params": params, "assigns": list(draw(st.permutations(assigns)))}, depth, diamond
